@@ -6,6 +6,10 @@ import Rsdns.Model.Basic
 import Rsdns.Model.Cursor
 import Rsdns.Model.Names
 import Rsdns.Model.Labels
+import Rsdns.Model.RData
+import Rsdns.Model.Reader
+import Rsdns.Model.RecordSet
+import Rsdns.Model.NameText
 
 namespace Rsdns.Driver
 
@@ -93,12 +97,303 @@ def answerName (mode : String) (pos : Nat) (msg : Bytes) : String :=
     | .ub => "ub"
   | _ => "bad-request"
 
+/-! ### record data -/
+
+def rtypeOfString : String → Option RType
+  | "A" => some .a | "NS" => some .ns | "MD" => some .md | "MF" => some .mf | "CNAME" => some .cname
+  | "SOA" => some .soa | "MB" => some .mb | "MG" => some .mg | "MR" => some .mr | "NULL" => some .null
+  | "WKS" => some .wks | "PTR" => some .ptr | "HINFO" => some .hinfo | "MINFO" => some .minfo
+  | "MX" => some .mx | "TXT" => some .txt | "AAAA" => some .aaaa
+  | _ => none
+
+def rtypeName : RType → String
+  | .a => "A" | .ns => "NS" | .md => "MD" | .mf => "MF" | .cname => "CNAME" | .soa => "SOA" | .mb => "MB"
+  | .mg => "MG" | .mr => "MR" | .null => "NULL" | .wks => "WKS" | .ptr => "PTR" | .hinfo => "HINFO"
+  | .minfo => "MINFO" | .mx => "MX" | .txt => "TXT" | .aaaa => "AAAA"
+
+def showRData : RData → String
+  | .a v => s!"A:{v}"
+  | .aaaa v => s!"AAAA:{v}"
+  | .dn t n => s!"{rtypeName t}:{toHex n}"
+  | .soa m r a b c d e => s!"SOA:{toHex m}:{toHex r}:{a}:{b}:{c}:{d}:{e}"
+  | .null b => s!"NULL:{toHex b}"
+  | .wks a p b => s!"WKS:{a}:{p.toNat}:{toHex b}"
+  | .hinfo c o => s!"HINFO:{toHex c}:{toHex o}"
+  | .minfo r e => s!"MINFO:{toHex r}:{toHex e}"
+  | .mx p e => s!"MX:{p}:{toHex e}"
+  | .txt t => s!"TXT:{toHex t}"
+
+/-- `rdata <TYPE> <pos> <rdlen> <hex>` -/
+def answerRData (t : RType) (pos rdlen : Nat) (msg : Bytes) : String :=
+  let (r, c) := readRData t msg rdlen (Cur.withPos msg pos)
+  showRes showRData r ++ s!" pos={c.pos} cap={c.lim}"
+
+/-! ### MessageReader histories -/
+
+def showQuestionOwned (q : Question) : String := s!"Q:{toHex q.qname}:{q.qtype}:{q.qclass}"
+
+def showNameRef (msg : Bytes) (c : Cur) : String :=
+  match nameRefToName .heap msg c with
+  | .ok t => toHex t
+  | .err e => "!" ++ showErr e
+  | .panic k => showPanic k
+  | .ub => "ub"
+
+def showMarker (m : Marker) : String :=
+  s!"M:{m.offset}:{m.typeOffset}:{m.rtype}:{m.rclass}:{m.ttl}:{m.rdlen}:{m.section_}"
+
+def showE {α} (f : α → String) : Res α → String
+  | .ok a => f a
+  | .err e => "E:" ++ showErr e
+  | .panic _ => "P"
+  | .ub => "UB"
+
+def isAbort {α} : Res α → Bool
+  | .panic _ => true
+  | .ub => true
+  | _ => false
+
+structure Hist where
+  r : Reader
+  markers : Array Marker
+  outs : Array String
+  stopped : Bool
+
+def sectionOfString (s : String) : Option Nat := match s with
+  | "0" => some 0 | "1" => some 1 | "2" => some 2 | _ => none
+
+def histOp (msg : Bytes) (h : Hist) (op : String) : Hist :=
+  if h.stopped then h else
+  let push (h : Hist) (s : String) (abort : Bool) (r : Reader) : Hist :=
+    { h with outs := h.outs.push s, stopped := abort, r := r }
+  let last : Option Marker := h.markers.back?
+  match op.splitOn ":" with
+  | ["hd"] =>
+    let (o, r) := h.r.header msg
+    push h (showE (fun x => s!"H:{x.id}:{x.flags}:{x.qd}:{x.an}:{x.ns}:{x.ar}") o) (isAbort o) r
+  | [q] =>
+    let qk : Option QKind := match q with
+      | "q" => some .question | "qr" => some .questionRef | "tq" => some .theQuestion
+      | "tqr" => some .theQuestionRef | _ => none
+    match qk with
+    | some k =>
+      let (o, r) := h.r.question msg k
+      push h (showE (fun x => match x with
+        | .owned q => showQuestionOwned q
+        | .ref q => s!"Q:{showNameRef msg q.qname}:{q.qtype}:{q.qclass}") o) (isAbort o) r
+    | none =>
+      match q with
+      | "sq" => let (o, r) := h.r.skipQuestions msg; push h (showE (fun _ => "ok") o) (isAbort o) r
+      | "mk" | "hr" | "hh" | "hi" =>
+        let k : HKind := match q with
+          | "mk" => .marker | "hr" => .ref | "hh" => .owned .heap | _ => .owned .inline
+        let (o, r) := h.r.recordHeader msg k
+        let h' := match o with
+          | .ok (_, m) => { h with markers := h.markers.push m }
+          | _ => h
+        push h' (showE (fun (hn, m) => showMarker m ++ (match hn with
+          | .none => ""
+          | .ref c => ":" ++ showNameRef msg c
+          | .owned t => ":" ++ toHex t)) o) (isAbort o) r
+      | "sk" => match last with
+        | some m => let (o, r) := h.r.skipData m; push h (showE (fun _ => "ok") o) (isAbort o) r
+        | none => push h "nomarker" false h.r
+      | "db" => match last with
+        | some m => let (o, r) := h.r.dataBytes msg m; push h (showE (fun b => "B:" ++ toHex b) o) (isAbort o) r
+        | none => push h "nomarker" false h.r
+      | "op" => match last with
+        | some m =>
+          let (o, r) := h.r.optRecord m
+          push h (showE (fun x => s!"O:{x.udpPayloadSize}:{x.rcodeExtension}:{x.version}:{x.flags}") o) (isAbort o) r
+        | none => push h "nomarker" false h.r
+      | "cq" => let o := h.r.questionsCount; push h (showE (fun n => s!"N:{n}") o) (isAbort o) h.r
+      | "cr" => let o := h.r.recordsCount; push h (showE (fun n => s!"N:{n}") o) (isAbort o) h.r
+      | _ => push h "badop" false h.r
+  | ["dt", ty] =>
+    match rtypeOfString ty, last with
+    | some t, some m =>
+      let (o, r) := h.r.data msg t m
+      push h (showE (fun d => "D:" ++ showRData d) o) (isAbort o) r
+    | _, _ => push h "nomarker" false h.r
+  | ["seek", s] =>
+    match sectionOfString s with
+    | some sec => let (o, r) := h.r.seek msg sec; push h (showE (fun _ => "ok") o) (isAbort o) r
+    | none => push h "badop" false h.r
+  | ["cs", s] =>
+    match sectionOfString s with
+    | some sec => let o := h.r.recordsCountIn sec; push h (showE (fun n => s!"N:{n}") o) (isAbort o) h.r
+    | none => push h "badop" false h.r
+  | ["dba", i] =>
+    match i.toNat? >>= (h.markers[·]?) with
+    | some m => let o := h.r.dataBytesAt msg m; push h (showE (fun b => "B:" ++ toHex b) o) (isAbort o) h.r
+    | none => push h "nomarker" false h.r
+  | ["dta", i, ty] =>
+    match i.toNat? >>= (h.markers[·]?), rtypeOfString ty with
+    | some m, some t => let o := h.r.dataAt msg t m; push h (showE (fun d => "D:" ++ showRData d) o) (isAbort o) h.r
+    | _, _ => push h "nomarker" false h.r
+  | ["nra", i] =>
+    match i.toNat? >>= (h.markers[·]?) with
+    | some m => push h ("R:" ++ showNameRef msg (h.r.nameRefAt m)) false h.r
+    | none => push h "nomarker" false h.r
+  -- G2 calls with an arbitrary earlier marker (C17: out-of-order use)
+  | ["skx", i] =>
+    match i.toNat? >>= (h.markers[·]?) with
+    | some m => let (o, r) := h.r.skipData m; push h (showE (fun _ => "ok") o) (isAbort o) r
+    | none => push h "nomarker" false h.r
+  | ["dbx", i] =>
+    match i.toNat? >>= (h.markers[·]?) with
+    | some m => let (o, r) := h.r.dataBytes msg m; push h (showE (fun b => "B:" ++ toHex b) o) (isAbort o) r
+    | none => push h "nomarker" false h.r
+  | ["dtx", i, ty] =>
+    match i.toNat? >>= (h.markers[·]?), rtypeOfString ty with
+    | some m, some t =>
+      let (o, r) := h.r.data msg t m
+      push h (showE (fun d => "D:" ++ showRData d) o) (isAbort o) r
+    | _, _ => push h "nomarker" false h.r
+  | _ => push h "badop" false h.r
+
+/-- `reader <hex> <op>…` -/
+def answerReader (msg : Bytes) (ops : List String) : String :=
+  match Reader.new msg with
+  | .err e => "err " ++ showErr e
+  | .panic k => showPanic k
+  | .ub => "ub"
+  | .ok r =>
+    let h := ops.foldl (histOp msg) { r := r, markers := #[], outs := #[], stopped := false }
+    String.intercalate " " h.outs.toList
+
+/-! ### iterator API, record sets, NameRef::eq -/
+
+def showRecord (r : Record) : String :=
+  s!"R:{r.section_}:{toHex r.name}:{r.rclass}:{r.rtype}:{r.ttl}:{showRData r.rdata}"
+
+def showItems {α} (f : α → String) : Res (List (Except Err α)) → String
+  | .ok l => String.intercalate ";" (l.map (fun x => match x with | .ok a => f a | .error e => "E:" ++ showErr e))
+  | .err e => "E:" ++ showErr e
+  | .panic _ => "P"
+  | .ub => "UB"
+
+/-- `iter <hex>` -/
+def answerIter (msg : Bytes) : String :=
+  match MsgIter.new msg with
+  | .err e => "err " ++ showErr e
+  | .panic k => showPanic k
+  | .ub => "ub"
+  | .ok mi =>
+    let h := mi.header
+    s!"H:{h.id}:{h.flags}:{h.qd}:{h.an}:{h.ns}:{h.ar} | " ++
+      showE showQuestionOwned (mi.question msg) ++ " | " ++
+      showItems showQuestionOwned (mi.questions msg) ++ " | " ++
+      showItems showRecord (mi.records msg)
+
+/-- `rrset <TYPE> <hex>` -/
+def answerRRSet (t : RType) (msg : Bytes) : String :=
+  showRes (fun rs => s!"{toHex rs.name}:{rs.rclass}:{rs.ttl}:" ++
+      String.intercalate "," (rs.rdata.map showRData)) (fromMsg t msg)
+
+/-- `nameeq <p1> <p2> <hex>` -/
+def answerNameEq (p1 p2 : Nat) (msg : Bytes) : String :=
+  match nameRefEq msg msg (Cur.withPos msg p1) (Cur.withPos msg p2) with
+  | .ok (.ok b) => s!"ok {b}"
+  | .ok (.error e) => "err " ++ showErr e
+  | .err e => "err " ++ showErr e
+  | .panic k => showPanic k
+  | .ub => "ub"
+
+/-! ### text names, encoder -/
+
+def showOrdering : Ordering → String
+  | .lt => "lt" | .eq => "eq" | .gt => "gt"
+
+def kindOfString : String → Option NameKind
+  | "heap" => some .heap | "inline" => some .inline | _ => none
+
+/-- `cmp <hexA> <hexB>`: both strings are parsed first (as `Name` and as `InlineName`) -/
+def answerCmp (a b : Bytes) : String :=
+  match parseName .heap a, parseName .heap b, parseName .inline a, parseName .inline b with
+  | .ok na, .ok nb, .ok ia, .ok ib =>
+    let feed (x : Bytes) := toHex (nameHashFeed x).toArray
+    s!"eq={nameEq na nb} cmp={showOrdering (nameCmp na nb)} ieq={nameEq ia ib} icmp={showOrdering (nameCmp ia ib)} " ++
+      s!"xeq={nameEq ia nb} ha={feed na} hb={feed nb} iha={feed ia} " ++
+      s!"conv={toHex na}:{showRes toHex (toInline na)}:{showRes toHex (toHeap ia)}"
+  | _, _, _, _ => "badname"
+
+/-- the public text APIs take `&str`: non-UTF-8 input cannot be expressed through them -/
+def isUtf8 (b : Bytes) : Bool := (String.fromUTF8? (ByteArray.mk b)).isSome
+
 def answer (line : String) : String :=
   match line.trimAscii.toString.splitOn " " with
   | ["name", mode, pos, hex] =>
     match pos.toNat?, parseHex hex with
     | some p, some msg => answerName mode p msg
     | _, _ => "bad-request"
+  | ["rdata", ty, pos, rdlen, hex] =>
+    match rtypeOfString ty, pos.toNat?, rdlen.toNat?, parseHex hex with
+    | some t, some p, some n, some msg => answerRData t p n msg
+    | _, _, _, _ => "bad-request"
+  | "reader" :: hex :: ops =>
+    match parseHex hex with
+    | some msg => answerReader msg ops
+    | none => "bad-request"
+  | ["iter", hex] =>
+    match parseHex hex with
+    | some msg => answerIter msg
+    | none => "bad-request"
+  | ["rrset", ty, hex] =>
+    match rtypeOfString ty, parseHex hex with
+    | some t, some msg => answerRRSet t msg
+    | _, _ => "bad-request"
+  | ["nameeq", p1, p2, hex] =>
+    match p1.toNat?, p2.toNat?, parseHex hex with
+    | some a, some b, some msg => answerNameEq a b msg
+    | _, _, _ => "bad-request"
+  | ["check", hex] =>
+    match parseHex hex with
+    | some s => showRes (fun _ => "") (checkNameBytes s)
+    | none => "bad-request"
+  | ["checklabel", hex] =>
+    match parseHex hex with
+    | some s => showRes (fun _ => "") (checkLabel s)
+    | none => "bad-request"
+  | ["parse", kind, hex] =>
+    match kindOfString kind, parseHex hex with
+    | some k, some s => if isUtf8 s then showRes toHex (parseName k s) else "not-utf8"
+    | _, _ => "bad-request"
+  | ["wname", cap, hex] =>
+    match cap.toNat?, parseHex hex with
+    | some c, some s =>
+      showRes (fun (w, n) => s!"{n} {toHex (w.buf.extract 0 w.pos)} rest={(w.buf.extract w.pos w.buf.size).all (· == 0xFF)}")
+        ((WCur.new c).writeDomainName s)
+    | _, _ => "bad-request"
+  | ["cmp", ha, hb] =>
+    match parseHex ha, parseHex hb with
+    | some a, some b => if isUtf8 a && isUtf8 b then answerCmp a b else "badname"
+    | _, _ => "bad-request"
+  | ["eqstr", kind, hn, hs] =>
+    match kindOfString kind, parseHex hn, parseHex hs with
+    | some k, some n, some s =>
+      if !(isUtf8 n && isUtf8 s) then "badname" else
+      match parseName k n with
+      | .ok nm => s!"ok {nameEqStr nm s}"
+      | _ => "badname"
+    | _, _, _ => "bad-request"
+  | ["query", cap, ty, cl, rd, opt, hex] =>
+    match cap.toNat?, ty.toNat?, cl.toNat?, parseHex hex with
+    | some c, some t, some k, some n =>
+      let o : Option (Option (Nat × Nat)) :=
+        if opt == "-" then some none
+        else match opt.splitOn ":" with
+          | [v, p] => match v.toNat?, p.toNat? with
+            | some v, some p => some (some (v, p))
+            | _, _ => none
+          | _ => none
+      match o with
+      | some o =>
+        if !isUtf8 n then "not-utf8" else
+        showRes (fun (buf, len) => s!"{len} {toHex (buf.extract 0 len)} rest={(buf.extract len buf.size).all (· == 0xFF)}")
+          (writeQuery c 0 n t k (rd == "1") o)
+      | none => "bad-request"
+    | _, _, _, _ => "bad-request"
   | _ => "bad-request"
 
 end Rsdns.Driver
